@@ -205,8 +205,11 @@ func init() {
 				}
 				r.Check(okP, k, "payout = floor((current index - position's index) x claim weight)", "(history.Index.Sub(rewardHistory.Index)).Mul(claimWeight).TruncateInt()", "the payout no longer has the reviewed form", e.Pos(fn.Pos()))
 				okT := false
-				for _, c := range CallsTo(fn, "math.LegacyNewDecFromInt") {
+				for _, c := range CallsTo(fn, "math.LegacyNewDecFromInt", "math.Int.ToLegacyDec") { // one conversion, two spellings
 					a := argT(fa, c, 0)
+					if CallRecv(c.Common()) != nil {
+						a = recvT(fa, c)
+					}
 					if a.Op == "field" && a.Name == "Amount" && a.Args[0].IsCall("types.GetDelegationTokens") {
 						ga := a.Args[0].CallArgsT()
 						// the three values the function was called for: parameters, or fields of a parameter that groups them
